@@ -33,6 +33,20 @@ type World struct {
 	GOOS    string
 	allFns  map[*ssa.Function]bool
 	repoFns []*ssa.Function
+
+	// deep.go
+	focus            *ssa.Function
+	opaque           map[*ssa.Function]bool
+	roleOpaque       map[*ssa.Function]bool
+	sites            map[*ssa.Function][]ssa.CallInstruction
+	addrTaken        map[*ssa.Function]bool
+	ifaceMethodNames map[string]bool
+	trees            map[*ssa.Function][]*ssa.Function
+	ndBusy           map[*ssa.Function]bool
+	succVal          map[interface{}]ssa.Value
+	mbn              map[*ssa.Function][]*ssa.Return
+	mbnBusy          map[*ssa.Function]bool
+	rootsInl         map[*ssa.Function]int
 }
 
 // Load loads ./... of dir with the given extra environment.
@@ -136,7 +150,7 @@ func (w *World) Func(pkg, name string) *ssa.Function {
 	if p == nil {
 		return nil
 	}
-	return p.Func(name)
+	return w.Opaque(p.Func(name))
 }
 
 // Method returns the method name on named type typ (pointer or value receiver) of pkg.
@@ -156,11 +170,11 @@ func (w *World) Method(pkg, typ, name string) *ssa.Function {
 				// wrapper for a promoted or value method: return the declared one instead
 				if o, ok := sel.Obj().(*types.Func); ok {
 					if d := w.Prog.FuncValue(o); d != nil {
-						return d
+						return w.Opaque(d)
 					}
 				}
 			}
-			return fn
+			return w.Opaque(fn)
 		}
 	}
 	return nil
@@ -260,12 +274,21 @@ func (w *World) Implementers(iface *types.Interface) []*types.Named {
 	return out
 }
 
-// Facts returns (cached) must-hold branch facts for fn.
+// Facts returns (cached) must-hold branch facts for fn and makes fn the frame of reference of Expr.
 func (w *World) Facts(fn *ssa.Function) *Facts {
+	if fn != nil {
+		w.Focus(fn)
+	}
+	return w.factsOf(fn)
+}
+
+// factsOf: Facts without moving the focus.
+func (w *World) factsOf(fn *ssa.Function) *Facts {
 	if f, ok := w.facts[fn]; ok {
 		return f
 	}
 	f := computeFacts(fn)
+	f.w = w
 	w.facts[fn] = f
 	return f
 }
